@@ -27,6 +27,19 @@ def t5(sim):
     return round(sim.loop._vt / TICK * 5)
 
 
+_frozen = []
+
+
+def idle_gc():
+    """one full cyclic-GC pass; everything that existed before the first pass of this process (modules,
+    harness) is frozen first so that the pass only walks the objects of the running case"""
+    if not _frozen:
+        _frozen.append(1)
+        gc.collect()
+        gc.freeze()
+    gc.collect()
+
+
 def new_sim():
     """vloop.Sim with a clock resolution well below the 1/5-tick grid of this check.  asyncio runs a
     timer as soon as `when < now + clock_resolution`; vloop's default (1/4 tick) lets the default
@@ -217,6 +230,11 @@ class BatcherRig:
 
         def handler(ev):
             if ev[0] == 'call':
+                # a cyclic-GC pass at the quiescent point before every call: an idle batcher (no request in
+                # flight) must survive it — a registry that holds its batchers weakly would silently build a
+                # fresh one here and lose the retained results (harmless on the unchanged tree)
+                if len(rec.dones) == rec.ncallers:      # idle: every earlier caller has been answered
+                    idle_gc()
                 c = rec.ncallers
                 rec.ncallers += 1
                 rec.tasks.append(sim.loop.create_task(caller(c, ev[1])))
@@ -322,6 +340,8 @@ def run_batcher2(cfg, script, form):
     def handler(ev):
         if ev[0] == 'call':
             rec = recs[ev[1]]
+            if len(rec['dones']) == rec['n']:       # see BatcherRig.run_segment
+                idle_gc()
             c = rec['n']
             rec['n'] += 1
             tasks.append(sim.loop.create_task(caller(ev[1], c, ev[2])))
